@@ -1302,6 +1302,7 @@ func jsonhCollectPCs() []jsonhPC {
 	done := make(chan struct{})
 	go func() { jsonhGrab(0); close(done) }()
 	<-done
+	jsonhPCSink = append(jsonhPCSink, oddPCs()...) // call sites whose file names need escaping (oddpc.go)
 	seen := map[uintptr]bool{0: true}
 	out := []jsonhPC{{pc: 0}}
 	for _, pc := range jsonhPCSink {
